@@ -93,6 +93,25 @@ func genEmail(rng *rand.Rand, thorough bool) {
 		emit(buildDomain(dlen))
 		emit("a@" + buildDomain(dlen))
 	}
+	// two boundaries at once: local-part length x first/last label length x domain length x total length
+	for _, ll := range []int{1, 2, 62, 63, 64, 65} {
+		for _, first := range []int{1, 2, 62, 63, 64} {
+			for _, last := range []int{1, 2, 3, 62, 63, 64} {
+				for _, dlen := range []int{first + last + 1, first + last + 3, 64, 65, 127, 128, 187, 188, 189, 190, 191, 192, 250, 251, 252, 253, 254, 255} {
+					d, ok := domainWith(first, last, dlen)
+					if !ok {
+						continue
+					}
+					emit(rep("a", ll) + "@" + d)
+					if ll == 64 || ll == 1 {
+						emit(rep("a", ll-1) + "." + "@" + d)           // local part ending in a dot
+						emit(rep("a", ll) + "@-" + d[1:])                // first label starting with a hyphen
+						emit(rep("a", ll) + "@" + d[:len(d)-1] + "-")    // last label ending with a hyphen
+					}
+				}
+			}
+		}
+	}
 	// random structured addresses with mutations
 	nr := 60000
 	if thorough {
@@ -128,6 +147,31 @@ func randFrom(rng *rand.Rand, chars string, n int) string {
 		b[i] = chars[rng.Intn(len(chars))]
 	}
 	return string(b)
+}
+
+// domainWith builds a domain of exactly total bytes whose first label has first bytes and whose last label has last bytes
+// (the labels in between are as long as allowed); the label lengths themselves may exceed 63 on purpose.
+func domainWith(first, last, total int) (string, bool) {
+	rem := total - first - last - 1
+	if rem < 0 || rem == 1 {
+		return "", false
+	}
+	mid := ""
+	for rem > 0 {
+		l := 63
+		if rem-1 < l {
+			l = rem - 1
+		}
+		if l < 1 {
+			return "", false
+		}
+		mid += rep("m", l) + "."
+		rem -= l + 1
+		if rem == 1 {
+			return "", false
+		}
+	}
+	return rep("f", first) + "." + mid + rep("z", last), true
 }
 
 // a syntactically valid domain of exactly n bytes (n >= 3): labels of <= 63 bytes
